@@ -213,7 +213,19 @@ impl<'a> Evaluator<'a> {
                             }),
                         }
                     }
-                    _ => Ok(None),
+                    // An operand that cannot be evaluated yet: try again in the next pass
+                    (None, _)
+                    | (_, None)
+                    | (Some(SymbolData::Placeholder), _)
+                    | (_, Some(SymbolData::Placeholder)) => Ok(None),
+                    // e.g. a number and a string: no later pass can make sense of this, so don't drop it in silence
+                    _ => Err(EvaluationError {
+                        span: bin.op.span,
+                        message: format!(
+                            "cannot apply operation '{}' on operands of different types",
+                            bin.op.data
+                        ),
+                    }),
                 }
             }
         }
